@@ -292,13 +292,28 @@ func (f *Frame) execBlock(c *cursor, b *ssa.BasicBlock) {
 		if f.top && f.pendingSiteRet != "" {
 			// siteret(NAME): what the call at the site returned
 			if v, ok := in.(ssa.Value); ok {
+				var sv sval
 				if t, ok := f.vals[v]; ok {
+					sv = sval{t, v.Type()}
+				} else if tup, ok := f.tuples[v]; ok && len(tup) > 0 {
+					// several results: the first one
+					if tt, ok := v.Type().(*types.Tuple); ok && tt.Len() > 0 {
+						sv = sval{tup[0], tt.At(0).Type()}
+					}
+				}
+				if sv.t.S != "" {
 					if f.siteRets == nil {
 						f.siteRets = map[string]sval{}
 					}
 					for _, name := range strings.Fields(f.pendingSiteRet) {
-						f.siteRets[name] = sval{t, v.Type()}
+						f.siteRets[name] = sv
 					}
+				}
+				if f.siteAfter == nil {
+					f.siteAfter = map[string]*State{}
+				}
+				for _, name := range strings.Fields(f.pendingSiteRet) {
+					f.siteAfter[name] = c.st.clone()
 				}
 			}
 			f.pendingSiteRet = ""
@@ -475,7 +490,11 @@ func (f *Frame) exec(c *cursor, in ssa.Instruction) bool {
 		e.setFamily(st, fam, store(e.family(st, fam, srt), r, e.U.constArray(k, SBool, tFalse)))
 		return false
 	case *ssa.MakeChan:
-		f.vals[x] = f.freshRef(f.name(x), st)
+		r := f.freshRef(f.name(x), st)
+		f.vals[x] = r
+		// ghost: a new channel is open
+		e.famSort["Chan.closed"] = arraySort(SInt, SBool)
+		e.setFamily(st, "Chan.closed", store(e.family(st, "Chan.closed", arraySort(SInt, SBool)), r, tFalse))
 		return false
 	case *ssa.MakeSlice:
 		ln, cp := f.asInt(f.val(x.Len)), f.asInt(f.val(x.Cap))
@@ -531,6 +550,24 @@ func (f *Frame) exec(c *cursor, in ssa.Instruction) bool {
 			lo = -1
 		}
 		e.assume(and(le(intLit(lo), idx), lt(idx, intLit(int64(n)))), idx.S)
+		// ghost Chan.closed: a receive from a closed channel is always ready (so
+		// the default case is not taken); a channel that the program never sends
+		// on (a pure signal) is ready to receive only when it is closed
+		for i, sc := range x.States {
+			if sc.Dir != types.RecvOnly {
+				continue
+			}
+			if chv, ok := f.vals[sc.Chan]; ok {
+				closed := sel(e.family(st, "Chan.closed", arraySort(SInt, SBool)), chv, SBool)
+				e.famSort["Chan.closed"] = arraySort(SInt, SBool)
+				if !x.Blocking {
+					e.assume(implies(closed, ge(idx, intLit(0))), idx.S)
+				}
+				if e.P.signalOnlyChan(sc.Chan) {
+					e.assume(implies(eq(idx, intLit(int64(i))), closed), idx.S)
+				}
+			}
+		}
 		tup := []Term{f.coerceInt(idx, x.Type().(*types.Tuple).At(0).Type()), e.declare(f.name(x)+".ok", SBool)}
 		tt := x.Type().(*types.Tuple)
 		for i := 2; i < tt.Len(); i++ {
@@ -1704,4 +1741,48 @@ func (f *Frame) fieldWrittenInPackage(fam string) bool {
 		}
 	}
 	return P.writtenFams[fam]
+}
+
+// signalOnlyChan: the channel is loaded from a struct field that no function of
+// the program ever sends on (it is only closed and received from).
+func (P *Program) signalOnlyChan(v ssa.Value) bool {
+	fieldOf := func(v ssa.Value) string {
+		if u, ok := v.(*ssa.UnOp); ok && u.Op == token.MUL {
+			if fa, ok := u.X.(*ssa.FieldAddr); ok {
+				if _, stT, ok := isStructPtr(fa.X.Type()); ok {
+					return fieldFamily(stT, fa.Field)
+				}
+			}
+		}
+		return ""
+	}
+	if P.sentFields == nil {
+		P.sentFields = map[string]bool{}
+		for _, fn := range P.Funcs {
+			for _, b := range fn.Blocks {
+				for _, in := range b.Instrs {
+					switch x := in.(type) {
+					case *ssa.Send:
+						if k := fieldOf(x.Chan); k != "" {
+							P.sentFields[k] = true
+						} else {
+							P.sentFields["*"] = true
+						}
+					case *ssa.Select:
+						for _, sc := range x.States {
+							if sc.Dir == types.SendOnly {
+								if k := fieldOf(sc.Chan); k != "" {
+									P.sentFields[k] = true
+								} else {
+									P.sentFields["*"] = true
+								}
+							}
+						}
+					}
+				}
+			}
+		}
+	}
+	k := fieldOf(v)
+	return k != "" && !P.sentFields[k] && !P.sentFields["*"]
 }
